@@ -1,7 +1,10 @@
-(* Correspondence check for C01: histories of Write/Post/Get/Del/RawRead/RawDelete/
-   mark-read-only on a real storage.Store volume (NeedleMapInMemory) and the real HTTP
-   handlers, with what the implementation answered at every step and the final
-   .dat size / needle-map entries. *)
+(* Correspondence check for C01: histories of Write/Post/Get/Del/RawRead/RawDelete/mark-read-only,
+   GET and HEAD in every request form, and gRPC BatchDelete on a real storage.Store volume
+   (NeedleMapInMemory), the real HTTP handlers and the real gRPC method, with what the
+   implementation answered at every step and, at the end, the .dat size, the in-memory needle-map
+   entries and the entries of the .idx file.  Time: the clock reading of every event is a logical
+   clock; the harness makes it real by moving the AppendAtNs stamps of the stored records back
+   whenever the logical clock jumps. *)
 From Coq Require Import List NArith ZArith Bool String Ascii.
 From SW Require Export base.Verdict model.Volume.
 Import ListNotations.
@@ -15,6 +18,7 @@ Fixpoint pat_from (tag i : N) (len : nat) : bytes :=
   end.
 Definition pat (tag len : N) : bytes := pat_from tag 0 (N.to_nat len).
 Definition rep (b len : N) : bytes := repeat b (N.to_nat len).
+Definition cat (a b : bytes) : bytes := a ++ b.
 (* compact byte-string literals: printable ASCII, or lower-case hex *)
 Fixpoint str (x : string) : bytes :=
   match x with EmptyString => [] | String a r => N_of_ascii a :: str r end.
@@ -38,20 +42,59 @@ Definition mku (id cookie : N) (data name ctype pairs : bytes) (ts tc tu : N) (g
   {| u_id := id; u_cookie := cookie; u_data := data; u_name := name; u_ctype := ctype; u_pairs := pairs;
      u_ts := ts; u_ttl := (tc, tu); u_gzip := gz |}.
 
-Definition g404 : out := OGet 404 blank_hview.
 Definition bv (cookie : N) : view := blank_view cookie.
 
+(* operations *)
+Definition Wr (n : needle) : xop := XBase (Write n).
+Definition Po (u : upload) : xop := XBase (Post u).
+Definition Ge (id c : N) (rd : bool) : xop := XBase (Get id c rd).
+Definition De (id c : N) : xop := XBase (Del id c).
+Definition Rr (id c : N) (rd : bool) : xop := XBase (RawRead id c rd).
+Definition Rd (id c : N) : xop := XBase (RawDelete id c).
+Definition Ro (b : bool) : xop := XBase (SetNoWriteOrDelete b).
+Definition Rc (b : bool) : xop := XBase (SetNoWriteCanDelete b).
+Definition Gx (id c : N) (rd gz head : bool) (name : bytes) : xop :=
+  XGet id c rd {| g_gzip := gz; g_head := head; g_name := name |}.
+Definition Bd (fids : list (N * N)) (skip : bool) : xop := XBatch fids skip.
+(* answers *)
+Definition oW (e : err) (u : bool) (s : N) : xout := XO (OWrite e u s).
+Definition oP (s : N) (e : err) : xout := XO (OPost s e).
+Definition oG (s : N) (h : hview) : xout := XO (OGet s h).
+Definition g404 : xout := XO (OGet 404 blank_hview).
+Definition x404 : xout := XOGet 404 blank_hview 0.
+Definition oD (s z : N) : xout := XO (ODel s z).
+Definition oR (e : err) (c : Z) (v : view) : xout := XO (ORead e c v).
+Definition oX (e : err) (z : Z) : xout := XO (ODelete e z).
+Definition oU : xout := XO OUnit.
+
 Record case := {
-  evs : list event;
-  impl : list out;                       (* one per event *)
+  evs : list xevent;
+  impl : list xout;                      (* one per event *)
+  gz_tab : list (bytes * bytes);         (* util.DecompressData of the gzip-magic payloads the harness stored *)
   fin_dat : N;                           (* size of the .dat file at the end *)
-  fin_nm : list (N * option (N * Z))     (* needle-map entry (offset, size) of every key of the universe *)
+  fin_nm : list (N * option (N * Z));    (* needle-map entry (offset, size) of every key of the universe *)
+  fin_idx : list (N * N * Z)             (* the entries of the .idx file in file order: key, offset, size *)
 }.
 
-Fixpoint run_state (st : vol) (h : list event) : vol * list out :=
+(* the decompression oracle: a table *)
+Fixpoint gun_of (tab : list (bytes * bytes)) (d : bytes) : bytes :=
+  match tab with
+  | [] => d
+  | (z, p) :: tab' => if bytes_eqb z d then p else gun_of tab' d
+  end.
+
+Fixpoint xrun_state (gun : bytes -> bytes) (st : vol) (h : list xevent) : vol * list xout :=
   match h with
   | [] => (st, [])
-  | ev :: h' => let '(st', o) := step st ev in let '(st'', os) := run_state st' h' in (st'', o :: os)
+  | ev :: h' => let '(st', o) := xstep gun st ev in let '(st'', os) := xrun_state gun st' h' in (st'', o :: os)
+  end.
+
+Definition xout_eqb (a b : xout) : bool :=
+  match a, b with
+  | XO x, XO y => out_eqb x y
+  | XOGet s h l, XOGet s' h' l' => (s =? s') && hview_eqb h h' && (l =? l')
+  | XOBatch r, XOBatch r' => pairs_eqb r r'
+  | _, _ => false
   end.
 
 Definition nm_entry_eqb (st : vol) (e : N * option (N * Z)) : bool :=
@@ -61,21 +104,45 @@ Definition nm_entry_eqb (st : vol) (e : N * option (N * Z)) : bool :=
   | _, _ => false
   end.
 
-Definition served_data (o : out) : bool :=
+(* the .idx file: NeedleMap.Put appends (key, offset, size), NeedleMap.Delete appends
+   (key, offset of the tombstone record, TombstoneFileSize).  The model's needle map is the log of
+   all its bindings and [recs] the log of all appended records; they advance together. *)
+Fixpoint idx_zip (ms : nmap) (rs : list rec) : list (N * N * Z) :=
+  match ms, rs with
+  | (k, nv) :: ms', r :: rs' =>
+      (if (nv_size nv <? 0)%Z then (k, r_off r, vc_tombstone) else (k, nv_off nv, nv_size nv)) :: idx_zip ms' rs'
+  | [], [] => []
+  | _, _ => [(0, 0, 0%Z)]        (* a record without a needle-map update: never in a reachable state *)
+  end.
+Definition idx_log (st : vol) : list (N * N * Z) := idx_zip (rev (nm st)) (rev (recs st)).
+
+Fixpoint idx_eqb (a b : list (N * N * Z)) : bool :=
+  match a, b with
+  | [], [] => true
+  | (k, o, s) :: a', (k', o', s') :: b' => (k =? k') && (o =? o') && (s =? s')%Z && idx_eqb a' b'
+  | _, _ => false
+  end.
+
+Definition served (o : xout) : bool :=
   match o with
-  | OGet 200 h => 0 <? blen (h_data h)
-  | ORead ENone _ v => 0 <? blen (v_data v)
+  | XO (OGet 200 h) => 0 <? blen (h_data h)
+  | XOGet 200 h l => 0 <? l
+  | XO (ORead ENone _ v) => 0 <? blen (v_data v)
   | _ => false
   end.
 
 Definition check (c : case) : outcome :=
-  let '(st, outs) := run_state init (evs c) in
-  {| o_corr := all2 out_eqb outs (impl c) && (dat_end st =? fin_dat c) && forallb (nm_entry_eqb st) (fin_nm c);
-     (* property oracle: the id -> (cookie, last written needle) specification, applied to
-        what the implementation answered *)
-     o_prop := all2 match_out (spec_run spec_init (evs c)) (impl c);
-     o_trig := if empty_payload (evs c) then Some 0
-               else if meta_dup [] (evs c) then Some 1 else None;
-     o_nontrivial := existsb served_data (impl c) |}.
+  let gun := gun_of (gz_tab c) in
+  let '(st, outs) := xrun_state gun init (evs c) in
+  (* property oracle: the specification id -> (cookie, last written needle) applied to what the
+     implementation answered, event by event, together with the finding (if any) that has
+     touched a key of the event *)
+  let j := xjudge gun [] [] spec_init (evs c) (impl c) in
+  {| o_corr := xwf_history (evs c) && all2 xout_eqb outs (impl c) && (dat_end st =? fin_dat c)
+               && forallb (nm_entry_eqb st) (fin_nm c) && idx_eqb (idx_log st) (fin_idx c);
+     o_prop := Nat.eqb (List.length j) (List.length (evs c)) && all_ok j;
+     (* inside a known finding only when EVERY failing event names a key that finding has touched *)
+     o_trig := fail_trig j;
+     o_nontrivial := existsb served (impl c) |}.
 
 Definition summarize_cases (l : list case) : summary := summarize check l.
